@@ -1,0 +1,155 @@
+//go:build verif
+
+package server
+
+import (
+	"context"
+	"net/http"
+	"sort"
+
+	"github.com/milvus-io/milvus/pkg/mq/msgdispatcher"
+	"github.com/milvus-io/milvus/pkg/util/typeutil"
+
+	"github.com/zilliztech/milvus-cdc/core/api"
+	cdcreader "github.com/zilliztech/milvus-cdc/core/reader"
+	serverapi "github.com/zilliztech/milvus-cdc/server/api"
+	"github.com/zilliztech/milvus-cdc/server/model"
+	"github.com/zilliztech/milvus-cdc/server/model/meta"
+)
+
+// VerifEntityParts are the injected collaborators of a ReplicateEntity.
+type VerifEntityParts struct {
+	ChannelManager api.ChannelManager
+	TargetClient   api.TargetAPI
+	MetaOp         api.MetaOp
+	Writer         api.Writer
+	MQDispatcher   msgdispatcher.Client
+	MQTTDispatcher msgdispatcher.Client
+}
+
+// VerifEntityFactory, when set, replaces the construction of the collaborators in
+// newReplicateEntity; the wiring (map entry, event loop, DML loop) stays the same.
+var VerifEntityFactory func(e *MetaCDC, info *meta.TaskInfo) (*VerifEntityParts, error)
+
+func verifNewReplicateEntity(e *MetaCDC, info *meta.TaskInfo) (*ReplicateEntity, bool, error) {
+	if VerifEntityFactory == nil {
+		return nil, false, nil
+	}
+	parts, err := VerifEntityFactory(e, info)
+	if err != nil {
+		return nil, true, err
+	}
+	uKey := getTaskUniqueIDFromInfo(info)
+	e.replicateEntityMap.Lock()
+	defer e.replicateEntityMap.Unlock()
+	entity, ok := e.replicateEntityMap.data[uKey]
+	if !ok {
+		replicateCtx, cancelReplicateFunc := context.WithCancel(context.TODO())
+		parts.ChannelManager.SetCtx(replicateCtx)
+		entity = &ReplicateEntity{
+			targetClient:   parts.TargetClient,
+			channelManager: parts.ChannelManager,
+			metaOp:         parts.MetaOp,
+			writerObj:      parts.Writer,
+			entityQuitFunc: cancelReplicateFunc,
+			mqDispatcher:   parts.MQDispatcher,
+			mqTTDispatcher: parts.MQTTDispatcher,
+			taskQuitFuncs:  typeutil.NewConcurrentMap[string, func()](),
+		}
+		e.replicateEntityMap.data[uKey] = entity
+		e.startReplicateAPIEvent(replicateCtx, entity)
+		e.startReplicateDMLChannel(replicateCtx, entity)
+	}
+	return entity, true, nil
+}
+
+// NewMetaCDCForVerif builds a MetaCDC around an injected meta store factory and MQ factory creator
+// (NewMetaCDC dials etcd / MySQL / the MQ).
+func NewMetaCDCForVerif(serverConfig *CDCServerConfig, factory serverapi.MetaStoreFactory, creator cdcreader.FactoryCreator) *MetaCDC {
+	if serverConfig.MaxNameLength == 0 {
+		serverConfig.MaxNameLength = 256
+	}
+	cdc := &MetaCDC{
+		metaStoreFactory: factory,
+		config:           serverConfig,
+		mqFactoryCreator: creator,
+	}
+	cdc.collectionNames.data = make(map[string][]string)
+	cdc.collectionNames.excludeData = make(map[string][]string)
+	cdc.collectionNames.extraInfos = make(map[string]model.ExtraInfo)
+	cdc.collectionNames.nameMapping = make(map[string]map[string]string)
+	cdc.cdcTasks.data = make(map[string]*meta.TaskInfo)
+	cdc.replicateEntityMap.data = make(map[string]*ReplicateEntity)
+	return cdc
+}
+
+// VerifTask is the in-memory view of a task.
+type VerifTask struct {
+	TaskID string
+	State  string
+	Reason string
+}
+
+// VerifSnapshot is a copy of the server's in-memory bookkeeping.
+type VerifSnapshot struct {
+	Tasks       []VerifTask
+	Data        map[string][]string
+	ExcludeData map[string][]string
+	ExtraInfos  map[string]bool
+	NameMapping map[string]map[string]string
+	EntityRef   map[string]int
+	EntityTasks map[string][]string
+}
+
+func (e *MetaCDC) VerifSnapshot() VerifSnapshot {
+	s := VerifSnapshot{
+		Data:        map[string][]string{},
+		ExcludeData: map[string][]string{},
+		ExtraInfos:  map[string]bool{},
+		NameMapping: map[string]map[string]string{},
+		EntityRef:   map[string]int{},
+		EntityTasks: map[string][]string{},
+	}
+	e.cdcTasks.RLock()
+	for _, t := range e.cdcTasks.data {
+		s.Tasks = append(s.Tasks, VerifTask{TaskID: t.TaskID, State: t.State.String(), Reason: t.Reason})
+	}
+	e.cdcTasks.RUnlock()
+	sort.Slice(s.Tasks, func(i, j int) bool { return s.Tasks[i].TaskID < s.Tasks[j].TaskID })
+	e.collectionNames.RLock()
+	for k, v := range e.collectionNames.data {
+		s.Data[k] = append([]string{}, v...)
+	}
+	for k, v := range e.collectionNames.excludeData {
+		s.ExcludeData[k] = append([]string{}, v...)
+	}
+	for k, v := range e.collectionNames.extraInfos {
+		s.ExtraInfos[k] = v.EnableUserRole
+	}
+	for k, v := range e.collectionNames.nameMapping {
+		m := map[string]string{}
+		for a, b := range v {
+			m[a] = b
+		}
+		s.NameMapping[k] = m
+	}
+	e.collectionNames.RUnlock()
+	e.replicateEntityMap.RLock()
+	for k, ent := range e.replicateEntityMap.data {
+		s.EntityRef[k] = int(ent.refCnt.Load())
+		keys := []string{}
+		ent.taskQuitFuncs.Range(func(id string, _ func()) bool {
+			keys = append(keys, id)
+			return true
+		})
+		sort.Strings(keys)
+		s.EntityTasks[k] = keys
+	}
+	e.replicateEntityMap.RUnlock()
+	return s
+}
+
+// NewCDCHandlerForVerif returns the /cdc HTTP handler around an injected service.
+func NewCDCHandlerForVerif(svc CDCService, cfg *CDCServerConfig) http.Handler {
+	return (&CDCServer{api: svc, serverConfig: cfg}).getCDCHandler()
+}
